@@ -13,7 +13,7 @@ Definition pinned_fp : list (pstr * pstr) := [
   (s2p "Gateway.add_sensor", s2p "b4939e255f1b");
   (s2p "Gateway.alert", s2p "99bb84dc1381");
   (s2p "Gateway.create_message_to_set_sensor_value", s2p "e2f3124644db");
-  (s2p "Gateway.is_sensor", s2p "ee45ca773957");
+  (s2p "Gateway.is_sensor", s2p "efc56a672c53");
   (s2p "Gateway.logic", s2p "8090b61b121e");
   (s2p "Gateway.set_child_value", s2p "46409b6f745c");
   (s2p "Message.__init__", s2p "765513938fd9");
